@@ -491,6 +491,8 @@ class Interp:
             return [Bits.source([self._src(it.start + k, i) for i in range(8)], False) for k in range(it.length)]
         if isinstance(it, BytesV):
             return [Bits.source(list(b), False) for b in it.bytes]
+        if isinstance(it, StrV):
+            return [StrV([c]) for c in it.chars]
         return None
 
     # ------------------------------------------------------------------
